@@ -127,8 +127,10 @@ func Gen(t *rapid.T) Case {
 	for i, n := 0, rapid.IntRange(1, 8).Draw(t, "nreqs"); i < n; i++ {
 		var q Request
 		var rt *Route
-		q.Method = rapid.SampledFrom([]string{"OPTIONS", "OPTIONS", "OPTIONS", "GET", "POST", "HEAD", "DELETE", "PUT", "PATCH", "BOGUS"}).Draw(t, "method")
-		switch rapid.IntRange(0, 9).Draw(t, "pathMode") {
+		q.Method = rapid.SampledFrom([]string{"OPTIONS", "OPTIONS", "OPTIONS", "GET", "POST", "HEAD", "DELETE", "PUT", "PATCH", "BOGUS", ""}).Draw(t, "method")
+		switch rapid.IntRange(0, 10).Draw(t, "pathMode") {
+		case 10:
+			q.Path, q.PathClass = "", "empty" // request target "http://host": the same tree-wide node as "*"
 		case 0:
 			q.Path, q.PathClass = "/nope", "unknown"
 		case 1:
@@ -280,7 +282,7 @@ type Facts struct {
 	Deny          bool
 	AnyOrigin     bool
 	OriginListed  bool // the request's Origin is exactly one of the configured origins (and not "*")
-	Preflight     bool // OPTIONS + Access-Control-Request-Method (non-empty), path other than "*"
+	Preflight     bool // OPTIONS + Access-Control-Request-Method (non-empty), path other than "*" (and than "", which is the same node)
 	RouteLive     bool
 	Route         string
 	RouteAllow    []string
@@ -307,7 +309,7 @@ func Derive(c Config, m *ref.Table, q Request, o *rig.Outcome) Facts {
 	if q.Origin != nil && *q.Origin != "*" && contains(c.Origins, *q.Origin) {
 		f.OriginListed = true
 	}
-	f.Preflight = q.Method == "OPTIONS" && q.ACRM != nil && *q.ACRM != "" && q.Path != "*"
+	f.Preflight = q.Method == "OPTIONS" && q.ACRM != nil && *q.ACRM != "" && q.Path != "*" && q.Path != ""
 	if !o.NodeNil && m.R[o.Pattern] != nil {
 		f.RouteLive = true
 		f.Route = o.Pattern
